@@ -157,6 +157,8 @@ type Exec struct {
 	quietStore   bool
 	atomicStore  bool
 	extraShared  map[int]bool
+	ghostKeys    map[string]int // sync.Once / sync.Pool ghost cells (ghostsync.go)
+	ghostDefault map[int]Val
 
 	Unwind  int
 	Lenient bool // during package init: unsupported calls yield Poison
@@ -466,13 +468,19 @@ func (e *Exec) merge2(a, b *State) *State {
 	for k, va := range a.Mem {
 		if vb, ok := b.Mem[k]; ok {
 			n.Mem[k] = e.mergeVal(c, va, vb)
+		} else if k <= ghostBase {
+			n.Mem[k] = e.mergeVal(c, va, e.ghostDefault[k])
 		} else {
 			n.Mem[k] = va
 		}
 	}
 	for k, vb := range b.Mem {
 		if _, ok := a.Mem[k]; !ok {
-			n.Mem[k] = vb
+			if k <= ghostBase {
+				n.Mem[k] = e.mergeVal(c, e.ghostDefault[k], vb)
+			} else {
+				n.Mem[k] = vb
+			}
 		}
 	}
 	for k, va := range a.Regs {
